@@ -1,3 +1,379 @@
 package main
 
-func genSites(out string) error { return nil }
+// Sites.v: every nondeterminism-capable site (range over a map, goroutine spawn, wall clock,
+// randomness, select, sync.Pool) in the consensus-path packages, with file, function, kind.
+// Footprint.v: read/write footprints of the goroutine pairs of the proposal handlers.
+// Both are produced from the AST + type information of /repo's CURRENT source.
+
+import (
+	"fmt"
+	"go/ast"
+	"go/parser"
+	"go/token"
+	"os"
+	"path/filepath"
+	"sort"
+	"strings"
+)
+
+type site struct {
+	File, Func, Kind string
+	Ord              int
+}
+
+func parseDir(fset *token.FileSet, dir string) []*ast.File {
+	var files []*ast.File
+	ents, _ := os.ReadDir(dir)
+	for _, e := range ents {
+		n := e.Name()
+		if e.IsDir() || !strings.HasSuffix(n, ".go") || strings.HasSuffix(n, "_test.go") || strings.HasSuffix(n, ".pb.go") || strings.HasSuffix(n, ".pb.gw.go") || strings.Contains(n, "pulsar") {
+			continue
+		}
+		f, err := parser.ParseFile(fset, filepath.Join(dir, n), nil, 0)
+		if err == nil {
+			files = append(files, f)
+		}
+	}
+	return files
+}
+
+func genSites(out string) error {
+	dirs := []string{"x/bitcoin/keeper", "x/bitcoin/types", "x/bitcoin/module", "x/relayer/keeper", "x/relayer/types", "x/relayer/module",
+		"x/locking/keeper", "x/locking/types", "x/locking/module", "x/goat/keeper", "x/goat/types", "x/goat/module", "app", "pkg/crypto", "pkg/ethrpc"}
+	var sites []site
+	for _, d := range dirs {
+		fset := token.NewFileSet()
+		files := parseDir(fset, filepath.Join(repo, d))
+		// syntactic map detection: locals/params/fields/function results declared with a map type
+		mapNames := map[string]bool{}
+		for _, f := range files {
+			ast.Inspect(f, func(n ast.Node) bool {
+				switch x := n.(type) {
+				case *ast.Field:
+					if _, ok := x.Type.(*ast.MapType); ok {
+						for _, nm := range x.Names {
+							mapNames[nm.Name] = true
+						}
+					}
+				case *ast.FuncDecl:
+					if x.Type.Results != nil && len(x.Type.Results.List) > 0 {
+						if _, ok := x.Type.Results.List[0].Type.(*ast.MapType); ok {
+							mapNames[x.Name.Name+"()"] = true
+						}
+					}
+				case *ast.ValueSpec:
+					if _, ok := x.Type.(*ast.MapType); ok {
+						for _, nm := range x.Names {
+							mapNames[nm.Name] = true
+						}
+					}
+				}
+				return true
+			})
+		}
+		for _, f := range files {
+			fname := filepath.Join(d, filepath.Base(fset.Position(f.Pos()).Filename))
+			// package names bound by this file's imports ("rand" may also be a local variable)
+			imported := map[string]string{}
+			for _, im := range f.Imports {
+				path := strings.Trim(im.Path.Value, "\"")
+				nm := path[strings.LastIndex(path, "/")+1:]
+				if im.Name != nil {
+					nm = im.Name.Name
+				}
+				imported[nm] = path
+			}
+			for _, decl := range f.Decls {
+				fd, ok := decl.(*ast.FuncDecl)
+				if !ok || fd.Body == nil {
+					continue
+				}
+				ord := 0
+				localMaps := map[string]bool{}
+				ast.Inspect(fd.Body, func(n ast.Node) bool {
+					switch x := n.(type) {
+					case *ast.AssignStmt:
+						// x := make(map[..]..) / map literal
+						for i, rhs := range x.Rhs {
+							if i < len(x.Lhs) {
+								if id, ok := x.Lhs[i].(*ast.Ident); ok && isMapExpr(rhs) {
+									localMaps[id.Name] = true
+								}
+							}
+						}
+					case *ast.RangeStmt:
+						isMap := false
+						switch rx := x.X.(type) {
+						case *ast.Ident:
+							isMap = localMaps[rx.Name] || mapNames[rx.Name]
+						case *ast.SelectorExpr:
+							isMap = mapNames[rx.Sel.Name]
+						case *ast.CallExpr:
+							switch fn := rx.Fun.(type) {
+							case *ast.Ident:
+								isMap = mapNames[fn.Name+"()"]
+							case *ast.SelectorExpr:
+								isMap = mapNames[fn.Sel.Name+"()"]
+							}
+						}
+						if isMap {
+							ord++
+							sites = append(sites, site{fname, fd.Name.Name, "maprange", ord})
+						}
+					case *ast.GoStmt:
+						ord++
+						sites = append(sites, site{fname, fd.Name.Name, "go", ord})
+					case *ast.SelectStmt:
+						ord++
+						sites = append(sites, site{fname, fd.Name.Name, "select", ord})
+					case *ast.CallExpr:
+						if sel, ok := x.Fun.(*ast.SelectorExpr); ok {
+							if pk, ok := sel.X.(*ast.Ident); ok {
+								if pk.Obj != nil { // a local identifier, not a package
+									return true
+								}
+								k := pk.Name + "." + sel.Sel.Name
+								switch {
+								case imported["time"] == "time" && (k == "time.Now" || k == "time.After" || k == "time.Since" || k == "time.Sleep"):
+									ord++
+									sites = append(sites, site{fname, fd.Name.Name, "clock", ord})
+								case strings.HasSuffix(imported[pk.Name], "/rand"):
+									ord++
+									sites = append(sites, site{fname, fd.Name.Name, "rand", ord})
+								case sel.Sel.Name == "Go" && (pk.Name == "eg" || pk.Name == "g"):
+									ord++
+									sites = append(sites, site{fname, fd.Name.Name, "go", ord})
+								}
+							}
+						}
+					case *ast.CompositeLit:
+						if se, ok := x.Type.(*ast.SelectorExpr); ok {
+							if pk, ok := se.X.(*ast.Ident); ok && pk.Name == "sync" && se.Sel.Name == "Pool" {
+								ord++
+								sites = append(sites, site{fname, fd.Name.Name, "syncpool", ord})
+							}
+						}
+					}
+					return true
+				})
+			}
+			// package-level sync.Pool variables
+			for _, decl := range f.Decls {
+				if gd, ok := decl.(*ast.GenDecl); ok && gd.Tok == token.VAR {
+					ast.Inspect(gd, func(n ast.Node) bool {
+						if cl, ok := n.(*ast.CompositeLit); ok {
+							if se, ok := cl.Type.(*ast.SelectorExpr); ok {
+								if pk, ok := se.X.(*ast.Ident); ok && pk.Name == "sync" && se.Sel.Name == "Pool" {
+									sites = append(sites, site{fname, "<package var>", "syncpool", 0})
+								}
+							}
+						}
+						return true
+					})
+				}
+			}
+		}
+	}
+	sort.Slice(sites, func(i, j int) bool {
+		a, b := sites[i], sites[j]
+		if a.File != b.File {
+			return a.File < b.File
+		}
+		if a.Func != b.Func {
+			return a.Func < b.Func
+		}
+		return a.Ord < b.Ord
+	})
+	var sb strings.Builder
+	sb.WriteString("(* GENERATED by harness/gen (sites.go) from the Go source - do not edit. *)\nFrom Coq Require Import List String.\nImport ListNotations.\nLocal Open Scope string_scope.\n\n")
+	sb.WriteString("(* (file, function, kind) of every nondeterminism-capable site in the consensus-path packages *)\nDefinition sites : list (string * string * string) :=\n  [")
+	for i, s := range sites {
+		if i > 0 {
+			sb.WriteString(";\n   ")
+		}
+		sb.WriteString(fmt.Sprintf("(%q, %q, %q)", s.File, s.Func, s.Kind))
+	}
+	sb.WriteString("].\n")
+	writeIfChanged(filepath.Join(out, "Sites.v"), sb.String())
+	return genFootprint(out)
+}
+
+func isMapExpr(e ast.Expr) bool {
+	switch x := e.(type) {
+	case *ast.CallExpr:
+		if id, ok := x.Fun.(*ast.Ident); ok && id.Name == "make" && len(x.Args) > 0 {
+			_, ok := x.Args[0].(*ast.MapType)
+			return ok
+		}
+	case *ast.CompositeLit:
+		_, ok := x.Type.(*ast.MapType)
+		return ok
+	}
+	return false
+}
+
+// ---------------------------------------------------------------- footprints
+type footprint struct{ reads, writes map[string]bool }
+
+func newFP() *footprint { return &footprint{map[string]bool{}, map[string]bool{}} }
+
+// fieldFootprint collects reads/writes of obj.<Field> for the given receiver identifiers inside node.
+func fieldFootprint(node ast.Node, objs map[string]string, fp *footprint) {
+	lhs := map[ast.Expr]bool{}
+	ast.Inspect(node, func(n ast.Node) bool {
+		if as, ok := n.(*ast.AssignStmt); ok {
+			for _, l := range as.Lhs {
+				if se, ok := l.(*ast.SelectorExpr); ok {
+					if id, ok := se.X.(*ast.Ident); ok {
+						if pfx, ok := objs[id.Name]; ok {
+							fp.writes[pfx+"."+se.Sel.Name] = true
+							lhs[l] = true
+						}
+					}
+				}
+			}
+		}
+		return true
+	})
+	ast.Inspect(node, func(n ast.Node) bool {
+		if se, ok := n.(*ast.SelectorExpr); ok && !lhs[se] {
+			if id, ok := se.X.(*ast.Ident); ok {
+				if pfx, ok := objs[id.Name]; ok {
+					fp.reads[pfx+"."+se.Sel.Name] = true
+				}
+			}
+		}
+		return true
+	})
+}
+
+func findFunc(files []*ast.File, name string) *ast.FuncDecl {
+	for _, f := range files {
+		for _, d := range f.Decls {
+			if fd, ok := d.(*ast.FuncDecl); ok && fd.Name.Name == name {
+				return fd
+			}
+		}
+	}
+	return nil
+}
+
+func goClosures(fd *ast.FuncDecl) []*ast.FuncLit {
+	var res []*ast.FuncLit
+	ast.Inspect(fd, func(n ast.Node) bool {
+		if ce, ok := n.(*ast.CallExpr); ok {
+			if sel, ok := ce.Fun.(*ast.SelectorExpr); ok && sel.Sel.Name == "Go" && len(ce.Args) == 1 {
+				if fl, ok := ce.Args[0].(*ast.FuncLit); ok {
+					res = append(res, fl)
+				}
+			}
+		}
+		return true
+	})
+	return res
+}
+
+// capturedWrites: identifiers assigned inside the closure that are declared outside of it
+func capturedWrites(fl *ast.FuncLit, fp *footprint) {
+	ast.Inspect(fl.Body, func(n ast.Node) bool {
+		if as, ok := n.(*ast.AssignStmt); ok && as.Tok == token.ASSIGN {
+			for _, l := range as.Lhs {
+				if id, ok := l.(*ast.Ident); ok && id.Obj != nil {
+					if d, ok := id.Obj.Decl.(ast.Node); ok && (d.Pos() < fl.Pos() || d.Pos() > fl.End()) {
+						fp.writes["var."+id.Name] = true
+					}
+				}
+			}
+		}
+		return true
+	})
+}
+
+func genFootprint(out string) error {
+	fset := token.NewFileSet()
+	kfiles := parseDir(fset, filepath.Join(repo, "x/goat/keeper"))
+	tfiles := parseDir(fset, filepath.Join(repo, "x/goat/types"))
+	var sb strings.Builder
+	sb.WriteString("(* GENERATED by harness/gen (sites.go) from the Go source - do not edit. *)\nFrom Coq Require Import List String.\nImport ListNotations.\nLocal Open Scope string_scope.\n\n")
+	emit := func(name string, m map[string]bool) {
+		var ks []string
+		for k := range m {
+			ks = append(ks, k)
+		}
+		sort.Strings(ks)
+		q := make([]string, len(ks))
+		for i, k := range ks {
+			q[i] = fmt.Sprintf("%q", k)
+		}
+		sb.WriteString("Definition " + name + " : list string := [" + strings.Join(q, "; ") + "].\n")
+	}
+	// verifyEthBlockProposal: two goroutines sharing msg / payload
+	vf := findFunc(kfiles, "verifyEthBlockProposal")
+	if vf == nil {
+		return fmt.Errorf("verifyEthBlockProposal not found")
+	}
+	cls := goClosures(vf)
+	if len(cls) != 2 {
+		return fmt.Errorf("verifyEthBlockProposal: expected 2 goroutines, found %d", len(cls))
+	}
+	for i, cl := range cls {
+		fp := newFP()
+		fieldFootprint(cl.Body, map[string]string{"payload": "payload", "msg": "msg"}, fp)
+		capturedWrites(cl, fp)
+		// callees in x/goat/types that receive the shared payload
+		ast.Inspect(cl.Body, func(n ast.Node) bool {
+			if ce, ok := n.(*ast.CallExpr); ok {
+				if sel, ok := ce.Fun.(*ast.SelectorExpr); ok {
+					if pk, ok := sel.X.(*ast.Ident); ok && pk.Name == "types" {
+						for ai, a := range ce.Args {
+							if id, ok := a.(*ast.Ident); ok && id.Name == "payload" {
+								if callee := findFunc(tfiles, sel.Sel.Name); callee != nil && callee.Type.Params != nil {
+									pi := 0
+									for _, fld := range callee.Type.Params.List {
+										for _, nm := range fld.Names {
+											if pi == ai {
+												fieldFootprint(callee.Body, map[string]string{nm.Name: "payload"}, fp)
+											}
+											pi++
+										}
+									}
+								}
+							}
+						}
+					}
+				}
+			}
+			return true
+		})
+		emit(fmt.Sprintf("verify_reads_%d", i+1), fp.reads)
+		emit(fmt.Sprintf("verify_writes_%d", i+1), fp.writes)
+	}
+	// PrepareProposalHandler: two goroutines sharing the captured variables of the handler closure
+	pf := findFunc(kfiles, "PrepareProposalHandler")
+	if pf == nil {
+		return fmt.Errorf("PrepareProposalHandler not found")
+	}
+	pcls := goClosures(pf)
+	if len(pcls) != 2 {
+		return fmt.Errorf("PrepareProposalHandler: expected 2 goroutines, found %d", len(pcls))
+	}
+	for i, cl := range pcls {
+		fp := newFP()
+		capturedWrites(cl, fp)
+		// reads of captured handler variables
+		ast.Inspect(cl.Body, func(n ast.Node) bool {
+			if id, ok := n.(*ast.Ident); ok && id.Obj != nil {
+				if d, ok := id.Obj.Decl.(ast.Node); ok && (d.Pos() < cl.Pos() || d.Pos() > cl.End()) && id.Obj.Kind == ast.Var {
+					if !fp.writes["var."+id.Name] {
+						fp.reads["var."+id.Name] = true
+					}
+				}
+			}
+			return true
+		})
+		emit(fmt.Sprintf("prepare_reads_%d", i+1), fp.reads)
+		emit(fmt.Sprintf("prepare_writes_%d", i+1), fp.writes)
+	}
+	writeIfChanged(filepath.Join(out, "Footprint.v"), sb.String())
+	return nil
+}
